@@ -166,6 +166,17 @@ def check(ctx):
         for an, ap_ in (("gff", gff), ("gb", gb)):
             runs.append(("sam variants: reference 3 bases longer than the %s annotation" % an, ["sam", "variants", "-s", lsam, "-r", longref, "-a", ap_], None))
             runs.append(("variants: reference 3 bases longer than the %s annotation" % an, ["variants", "--msa", lmsa, "-r", "REF", "-a", ap_], None))
+        # variants with the reference taken from the annotation: every row of the alignment wider / narrower than that sequence
+        wide_nr = W("wide_noref.fasta", fasta([(nm, s + "ACG") for nm, s in aln]))
+        narrow_nr = W("narrow_noref.fasta", fasta([(nm, s[:-3]) for nm, s in aln]))
+        ok_nr = W("ok_noref.fasta", fasta(aln))
+        for an, ap_ in (("gff", gff), ("gb", gb)):
+            cls_, _, _, err_ = cm.run_binary(binp, ["variants", "--msa", ok_nr, "-a", ap_], timeout=TIMEOUT)
+            if cls_ != "ok":
+                raise RuntimeError("variants without --reference refuses a valid alignment: %r" % err_.decode()[-200:])
+            for extra in ([], ["--aggregate"], ["-t", "3"]):
+                runs.append(("variants (reference from the %s annotation) %s: alignment 3 columns wider" % (an, " ".join(extra)), ["variants", "--msa", wide_nr, "-a", ap_] + extra, None))
+                runs.append(("variants (reference from the %s annotation) %s: alignment 3 columns narrower" % (an, " ".join(extra)), ["variants", "--msa", narrow_nr, "-a", ap_] + extra, None))
         tworeg = W("tworegions.gff", open(gff, "rb").read().replace(b"##sequence-region", b"##sequence-region other 1 99\n##sequence-region", 1))
         runs.append(("variants: two ##sequence-region lines in the gff", sub(base["variants gff"], gff, tworeg), None))
         runs.append(("sam variants: two ##sequence-region lines in the gff", sub(base["sam variants"], gff, tworeg), None))
